@@ -30,6 +30,10 @@ func (node *tagBlockNode) Execute(ctx *ExecutionContext, writer TemplateWriter) 
 		panic("internal error: tpl == nil")
 	}
 
+	if ctx.depth > maxTemplateDepth {
+		return ctx.Error(fmt.Sprintf("maximum template nesting depth reached (max is %d): block definitions rendering each other through block.Super in a cycle?", maxTemplateDepth), nil)
+	}
+
 	// Determine the block to execute
 	blockWrappers := node.getBlockWrappers(tpl)
 	lenBlockWrappers := len(blockWrappers)
@@ -75,7 +79,11 @@ func (t tagBlockInformation) Super(ctx *ExecutionContext) (*Value, error) {
 		return AsSafeValue(""), nil
 	}
 
+	// Definitions can refer to each other in a cycle (a overrides b's outer block and
+	// uses Super, b …): every step into a less-derived definition counts as a level of
+	// nesting, which the block tag bounds like the nesting of templates
 	superCtx := NewChildExecutionContext(ctx)
+	superCtx.depth = ctx.depth + 1
 	superCtx.Private["block"] = tagBlockInformation{
 		wrappers: t.wrappers[0 : lenWrappers-1],
 	}
